@@ -20,6 +20,10 @@ def make_main(prog, *, emitter_fault=None, on_ready=None):
 
     def main(s):
         scripts = {p: list(seq) for p, seq in prog["scripts"].items()}
+        # slow passes: {path: {position in the script: virtual seconds}} - the emitter spends that long inside ONE
+        # queue_events() pass (longer than its timeout) before it queues the event, like a poll of a big tree
+        slow = {p: {int(k): v for k, v in d.items()} for p, d in prog.get("slow", {}).items()}
+        total = {p: len(seq) for p, seq in scripts.items()}
         inst = [0]
         fault = dict(emitter_fault or {})
         ctr = {"new": 0, "start": 0}
@@ -46,7 +50,11 @@ def make_main(prog, *, emitter_fault=None, on_ready=None):
             def queue_events(self, timeout):
                 sc = scripts.get(self.watch.path)
                 if sc:
+                    d = slow.get(self.watch.path, {}).get(total[self.watch.path] - len(sc))
                     eid = sc.pop(0)
+                    if d:
+                        s.record("slow_pass", (self.watch.path, self.inst, d))
+                        tm.sleep(d)
                     e = ev.FileCreatedEvent(f"{self.watch.path}/e{eid}")
                     s.record("queued", (self.watch.path, eid, self.inst))
                     self.queue_event(e)
@@ -257,7 +265,7 @@ def call_strategy(nh, npaths, kinds):
 
 
 @st.composite
-def programs(draw, *, removal_heavy=False, max_threads=2):
+def programs(draw, *, removal_heavy=False, max_threads=2, slow_passes=False):
     npaths = draw(st.integers(1, 3))
     nh = draw(st.integers(1, 3))
     paths = PATHS[:npaths]
@@ -290,7 +298,11 @@ def programs(draw, *, removal_heavy=False, max_threads=2):
     for _ in range(draw(st.integers(0, 2))):
         initial.append(["schedule", draw(st.integers(0, nh - 1)), draw(st.integers(0, npaths - 1))])
     threads = [draw(st.lists(calls, min_size=1, max_size=3)) for _ in range(draw(st.integers(0, max_threads)))]
-    return {"paths": paths, "scripts": scripts, "handlers": handlers, "initial": initial, "threads": threads}
+    prog = {"paths": paths, "scripts": scripts, "handlers": handlers, "initial": initial, "threads": threads}
+    if slow_passes and draw(st.integers(0, 2)) == 0:
+        p = draw(st.sampled_from(paths))
+        prog["slow"] = {p: {str(draw(st.integers(0, len(scripts[p]) - 1))): draw(st.sampled_from([1.5, 2.5, 4.0]))}}
+    return prog
 
 
 LINES = ("api", "bricks", "queue", "utils")
